@@ -913,6 +913,7 @@ Inductive op :=
 | OSetDisplaySisters (t col : Z) (set : bool) (reuse : Z) (sisters : list Z)   (* SetDisplayFormula, summary formula col *)
 | OReident (ckinds tnames : list (Z * Z))                (* RenameColumn, RenameTable *)
 | ODetach (sec name : Z) (kinds : list Z) (refts remap : list (Z * Z))   (* DetachSummaryViewSection *)
+| OAddTableR (name : Z) (kinds : list Z) (pview : bool) (refts : list (Z * Z))   (* AddTable with reference columns *)
 | OCreateSectionShown (t v : Z) (shown : list Z)         (* CreateViewSection, chart or form *)
 | OCreateSummaryExisting (src v : Z) (gb : list Z) (target : Z) (added shown : list Z)  (* ..., existing summary *)
 | ONoMeta                                               (* an action that touches none of the modelled cells *)
@@ -946,6 +947,7 @@ Definition step (o : op) (m : meta) : res meta :=
   | OSetDisplaySisters t col set reuse sisters => set_display_sisters t col set reuse sisters m
   | OReident ckinds tnames => reident ckinds tnames m
   | ODetach sec name kinds refts remap => detach sec name kinds refts remap m
+  | OAddTableR name kinds pview refts => bind (add_table name kinds pview m) (fun p => Ok (set_refts refts (fst p)))
   | OCreateSectionShown t v shown => create_section_shown t v shown m
   | OCreateSummaryExisting src v gb target added shown => create_summary_existing src v gb target added shown m
   | ONoMeta => Ok m
